@@ -1792,7 +1792,13 @@ class Isometry(projective.Transformation, HyperbolicObject):
             sort_indices = np.lexsort(sort_order, axis=-1)
             sort_indices = np.expand_dims(sort_indices, axis=-2)
         else:
-            sort_indices = np.argsort(in_plane, axis=-1)
+            # same keys as above, except for the eigenvalue modulus
+            # (real eigenvectors still come before non-real ones, whose
+            # real parts are not fixed points)
+            sort_order = np.stack([-1 * np.abs(np.imag(eigvals)),
+                                   in_plane])
+            sort_indices = np.lexsort(sort_order, axis=-1)
+            sort_indices = np.expand_dims(sort_indices, axis=-2)
 
         # we want a descending sort to put maximum modulus eigenvalues first
         sort_indices = np.flip(sort_indices, axis=-1)
